@@ -1,6 +1,16 @@
 (* C18: trace type, model-vs-implementation diff and the monitor (the property as a
-   boolean over the implementation's observations only). *)
-From SC Require Import Lib.Prelude Lib.Int Model.Base64 Model.Verifiers.
+   boolean over the implementation's observations only).
+
+   The monitor stands on its own: it re-reads the printed client data with its own JSON
+   reader (Model/ClientDataSpec.v) and the printed sig_data with its own XDR decoder
+   (Model/SigDataXdrSpec.v) and uses the harness-supplied parser / decoder answers only where
+   its reader does not decide; it uses the RFC 4648 specification (not the model's encoder),
+   bit tests (not masks), its own spelling of "webauthn.get", and the DOCUMENTED bounds
+   1024 / 37 (the model keeps the code's constants from the trace header).  Well-formedness
+   of the trace (header, sizes, consistency of the oracle answers with the printed bytes and
+   with each other) is checked, not assumed. *)
+From SC Require Import Lib.Prelude Lib.Int Model.Base64 Model.Verifiers
+  Model.ClientDataSpec Model.SigDataXdrSpec.
 From Coq Require Strings.Ascii Strings.String.
 Open Scope Z_scope.
 
@@ -24,10 +34,12 @@ Inductive call :=
 | B64 (dst_len : Z) (src : list Z)              (* base64_url_encode(&mut [0; dst_len], src) *)
 | Extract (n : Z) (sb eb : bound) (data : list Z)   (* extract_from_bytes::<n>(data, (sb, eb)) *)
 | Flags (f : Z)                                 (* the three validate_*_bit functions, in order *)
+| FlagOne (which : Z) (f : Z)                   (* one of them: 0 = user present, 1 = user verified,
+                                                   2 = backup eligibility/state *)
 | TypeChk (ty : list Z)                         (* validate_expected_type *)
 | Challenge (ch payload : list Z)               (* validate_challenge *)
 | WaLib (a : assertion)                         (* webauthn::verify *)
-| WaEx (key_data : list Z) (decoded : bool) (a : assertion)
+| WaEx (key_data sig_data : list Z) (decoded : bool) (a : assertion)
                                                 (* WebauthnVerifierContract::verify; decoded = oracle:
                                                    WebAuthnSigData::from_xdr succeeded (fields in a) *)
 | EdLib (payload key sig : list Z) (sigok : bool) (expect : option bool)   (* ed25519::verify *)
@@ -63,11 +75,16 @@ Definition run_call (c : cfg) (k : call) : outcome :=
         (do _ <- validate_user_present_bit_set f;
          do _ <- validate_user_verified_bit_set f;
          validate_backup_eligibility_and_state f)
+  | FlagOne w f =>
+      lift (fun _ => OUnit)
+        (if w =? 0 then validate_user_present_bit_set f
+         else if w =? 1 then validate_user_verified_bit_set f
+         else validate_backup_eligibility_and_state f)
   | TypeChk ty => lift (fun _ => OUnit) (validate_expected_type ty)
   | Challenge ch payload => lift (fun _ => OUnit) (validate_challenge ch payload)
   | WaLib a =>
       lift OBool (wa_decide c (a_payload a) (a_ad a) (a_cd a) (a_parsed a) (a_sigok a))
-  | WaEx kd decoded a =>
+  | WaEx kd sd decoded a =>
       lift OBool (wa_contract_decide c (a_payload a) kd
                     (if decoded then Some (a_sig a, a_ad a, a_cd a) else None)
                     (a_parsed a) (a_sigok a))
@@ -77,9 +94,7 @@ Definition run_call (c : cfg) (k : call) : outcome :=
 Definition model_obs (c : cfg) (k : call) : obs := (k, run_call c k).
 
 (* ------------------------------------------------------------------ *)
-(* The monitor: the property text over (call, outcome) pairs.  It uses the RFC 4648
-   specification (not the model's encoder), bit tests (not masks) and its own
-   spelling of "webauthn.get". *)
+(* The monitor *)
 Module SpecType.
   Import Strings.Ascii Strings.String.
   Definition ascii_bytes (s : string) : list Z :=
@@ -88,24 +103,61 @@ Module SpecType.
 End SpecType.
 Definition spec_type : list Z := SpecType.spec_type.
 
+(* the bounds of the text: client data of at most 1024 bytes; authenticator data of at least
+   37 bytes (rpIdHash 32, flags 1, signCount 4) *)
+Definition SPEC_MAX_CD : Z := 1024.
+Definition SPEC_MIN_AD : Z := 37.
+Definition cfg_ok (c : cfg) : bool := (max_cd c =? SPEC_MAX_CD) && (min_ad c =? SPEC_MIN_AD).
+
 (* user present (bit 0), user verified (bit 2), and not (backup state (bit 4) without
    backup eligibility (bit 3)) *)
-Definition spec_flags_ok (f : Z) : bool :=
-  Z.testbit f 0 && Z.testbit f 2 && negb (negb (Z.testbit f 3) && Z.testbit f 4).
+Definition spec_up (f : Z) : bool := Z.testbit f 0.
+Definition spec_uv (f : Z) : bool := Z.testbit f 2.
+Definition spec_backup (f : Z) : bool := negb (negb (Z.testbit f 3) && Z.testbit f 4).
+Definition spec_flags_ok (f : Z) : bool := spec_up f && spec_uv f && spec_backup f.
 
-(* the challenge is the unpadded base64url of exactly the first 32 payload bytes *)
-Definition spec_challenge_ok (ch payload : list Z) : bool :=
+(* the challenge is the unpadded base64url of exactly the 32-byte payload *)
+Definition spec_challenge_exact (ch payload : list Z) : bool :=
+  (len payload =? 32) && eqb_bytes ch (rfc4648_url_nopad payload).
+(* what the code does for a payload of another length (a deviation from the text that is
+   outside the property's domain - the host passes a 32-byte hash): shorter payloads are
+   rejected, longer ones are accepted on their first 32 bytes.  Used only as the "accepts
+   only if" direction for payloads that are not 32 bytes long. *)
+Definition spec_challenge_prefix (ch payload : list Z) : bool :=
   (32 <=? len payload) && eqb_bytes ch (rfc4648_url_nopad (firstn 32 payload)).
 
-Definition spec_wa_accept (c : cfg) (a : assertion) : bool :=
-  (len (a_cd a) <=? max_cd c)
-  && match a_parsed a with
-     | Some (ty, ch) => eqb_bytes ty spec_type && spec_challenge_ok ch (a_payload a)
-     | None => false
-     end
-  && (min_ad c <=? len (a_ad a))
+(* the monitor's own reading of the client data, where its reader decides *)
+Definition cd_view (cd : list Z) : option (option (list Z * list Z)) :=
+  match cd_fields cd with
+  | CdPlain ty ch => Some (Some (ty, ch))
+  | CdInvalid => Some None
+  | CdOther => None
+  end.
+Definition eqb_parsed (x y : option (list Z * list Z)) : bool :=
+  match x, y with
+  | Some (t1, c1), Some (t2, c2) => eqb_bytes t1 t2 && eqb_bytes c1 c2
+  | None, None => true
+  | _, _ => false
+  end.
+(* the parser oracle may not contradict the printed client data *)
+Definition parsed_agrees (a : assertion) : bool :=
+  match cd_view (a_cd a) with Some p => eqb_parsed p (a_parsed a) | None => true end.
+Definition spec_parsed (a : assertion) : option (list Z * list Z) :=
+  match cd_view (a_cd a) with Some p => p | None => a_parsed a end.
+
+(* everything but the challenge *)
+Definition spec_wa_rest (a : assertion) : bool :=
+  (len (a_cd a) <=? SPEC_MAX_CD)
+  && match spec_parsed a with Some (ty, _) => eqb_bytes ty spec_type | None => false end
+  && (SPEC_MIN_AD <=? len (a_ad a))
   && match nth_error (a_ad a) 32 with Some f => spec_flags_ok f | None => false end
   && a_sigok a.
+Definition spec_ch (a : assertion) : list Z :=
+  match spec_parsed a with Some (_, ch) => ch | None => [] end.
+Definition spec_wa_accept (a : assertion) : bool :=
+  spec_wa_rest a && spec_challenge_exact (spec_ch a) (a_payload a).
+Definition spec_wa_accept_prefix (a : assertion) : bool :=
+  spec_wa_rest a && spec_challenge_prefix (spec_ch a) (a_payload a).
 
 Definition is_accept (o : outcome) : bool :=
   match o with Ok (OBool true) => true | _ => false end.
@@ -117,9 +169,44 @@ Definition unit_or_fail (o : outcome) (want_ok : bool) : bool :=
 Definition expect_ok (e : option bool) (o : outcome) : bool :=
   match e with Some b => Bool.eqb (is_accept o) b | None => true end.
 
-Definition mon_call (c : cfg) (k : call) (o : outcome) : bool :=
+(* the verdict on an assertion: for a 32-byte payload acceptance is equivalent to the
+   property's conjunction; for other payload lengths (outside the property's domain) only
+   "accepts only if" is demanded, with the code's prefix rule for the challenge *)
+Definition wa_verdict (a : assertion) (pre : bool) (o : outcome) : bool :=
+  verdict_shape o
+  && (if len (a_payload a) =? 32
+      then Bool.eqb (is_accept o) (pre && spec_wa_accept a)
+      else implb (is_accept o) (pre && spec_wa_accept_prefix a)).
+
+(* sizes a signature oracle answer "valid" presupposes *)
+Definition wa_sizes_ok (a : assertion) : bool :=
+  implb (a_sigok a) ((len (a_key a) =? 65) && (len (a_sig a) =? 64)).
+(* the tag "genuine" is meaningful only inside the property's domain (32-byte payloads) *)
+Definition tag_ok (a : assertion) : bool :=
+  match a_expect a with Some true => len (a_payload a) =? 32 | _ => true end.
+Definition ed_sizes_ok (key sig : list Z) (sigok : bool) : bool :=
+  implb sigok ((len key =? 32) && (len sig =? 64)).
+
+(* the monitor's own decoding of sig_data *)
+Definition xdr_agrees (sd : list Z) (decoded : bool) (a : assertion) : bool :=
+  match xdr_sigdata sd with
+  | Some (sig, ad, cd) =>
+      decoded && eqb_bytes sig (a_sig a) && eqb_bytes ad (a_ad a) && eqb_bytes cd (a_cd a)
+  | None => negb decoded
+  end.
+
+Definition bound_u32 (b : bound) : bool :=
+  match b with Unbounded => true | Included k | Excluded k => in_u32 k end.
+(* first index and one-past-last index a Rust range denotes *)
+Definition range_start (sb : bound) : Z :=
+  match sb with Unbounded => 0 | Included s => s | Excluded s => s + 1 end.
+Definition range_end (eb : bound) (l : Z) : Z :=
+  match eb with Unbounded => l | Included e => e + 1 | Excluded e => e end.
+
+Definition mon_call (k : call) (o : outcome) : bool :=
   match k with
   | B64 dst_len src =>
+      (0 <=? dst_len) && bytes_ok src &&
       let n := enc_len (len src) in
       if n <=? dst_len then
         (* the encoding, then the untouched rest of the zeroed buffer *)
@@ -128,61 +215,141 @@ Definition mon_call (c : cfg) (k : call) (o : outcome) : bool :=
         | _ => false
         end
       else negb (is_ok o)                                   (* cannot fit: must not return *)
-  | Extract n (Included s) (Excluded e) data =>
-      (* the ordinary range s..e (what the code uses): the n bytes from s, or None *)
-      if (0 <=? s) && (s <=? e) && (e <=? MAXU32) then
-        match o with
-        | Ok (OOpt r) =>
-            if (e <=? len data) && (e - s =? n)
-            then match r with Some x => eqb_bytes x (firstn (Z.to_nat n) (skipn (Z.to_nat s) data)) | None => false end
-            else match r with None => true | Some _ => false end
-        | _ => false
-        end
-      else true
-  | Extract _ _ _ _ => true
-  | Flags f => unit_or_fail o (spec_flags_ok f)
+  | Extract n sb eb data =>
+      bound_u32 sb && bound_u32 eb && (len data <=? MAXU32) &&
+      let s := range_start sb in
+      let e := range_end eb (len data) in
+      match o with
+      | Ok (OOpt (Some x)) =>
+          (* whatever is returned is exactly the n bytes the range denotes *)
+          (s <=? e) && (e <=? len data) && (e - s =? n)
+          && eqb_bytes x (firstn (Z.to_nat n) (skipn (Z.to_nat s) data))
+      | Ok (OOpt None) =>
+          (* None only when it must: the range is out of bounds or does not have n elements
+             (an Excluded start bound - no Rust range syntax produces one - is not judged) *)
+          match sb with
+          | Excluded _ => true
+          | _ => negb ((s <=? e) && (e <=? len data) && (e - s =? n))
+          end
+      | Fail =>
+          (* a panic only for an inverted range (end - start underflows) or an inclusive end
+             at u32::MAX (n + 1 overflows) *)
+          match sb with
+          | Excluded _ => true
+          | _ => (e <? s) || match eb with Included k => MAXU32 <? k + 1 | _ => false end
+          end
+      | _ => false
+      end
+  | Flags f => is_byte f && unit_or_fail o (spec_flags_ok f)
+  | FlagOne w f =>
+      is_byte f &&
+      unit_or_fail o (if w =? 0 then spec_up f else if w =? 1 then spec_uv f else spec_backup f)
   | TypeChk ty => unit_or_fail o (eqb_bytes ty spec_type)
-  | Challenge ch payload => unit_or_fail o (spec_challenge_ok ch payload)
+  | Challenge ch payload =>
+      bytes_ok payload &&
+      (if len payload =? 32 then unit_or_fail o (spec_challenge_exact ch payload)
+       else match o with
+            | Ok OUnit => spec_challenge_prefix ch payload
+            | Fail => true
+            | _ => false
+            end)
   | WaLib a =>
-      verdict_shape o && Bool.eqb (is_accept o) (spec_wa_accept c a) && expect_ok (a_expect a) o
-  | WaEx kd decoded a =>
-      verdict_shape o
-      && Bool.eqb (is_accept o)
-           (decoded && (65 <=? len kd) && eqb_bytes (a_key a) (firstn 65 kd) && spec_wa_accept c a)
+      bytes_ok (a_payload a) && parsed_agrees a && wa_sizes_ok a && tag_ok a
+      && wa_verdict a true o && expect_ok (a_expect a) o
+  | WaEx kd sd decoded a =>
+      bytes_ok (a_payload a) && parsed_agrees a && wa_sizes_ok a && xdr_agrees sd decoded a
+      && (negb (decoded && (65 <=? len kd)) || eqb_bytes (a_key a) (firstn 65 kd)) && tag_ok a
+      && wa_verdict a (decoded && (65 <=? len kd)) o
       && expect_ok (a_expect a) o
-  | EdLib _ _ _ sigok e | EdEx _ _ _ sigok e =>
-      verdict_shape o && Bool.eqb (is_accept o) sigok && expect_ok e o
+  | EdLib _ key sig sigok e | EdEx _ key sig sigok e =>
+      ed_sizes_ok key sig sigok
+      && verdict_shape o && Bool.eqb (is_accept o) sigok && expect_ok e o
   end.
+
+(* the oracles are functions of the printed bytes: two calls with the same (key, signature,
+   authenticator data, client data) carry the same signature verdict, the same client data
+   carries the same parse, the same (payload, key, signature) the same Ed25519 verdict *)
+Definition call_asn (k : call) : option assertion :=
+  match k with WaLib a | WaEx _ _ _ a => Some a | _ => None end.
+Definition asn_compat (a b : assertion) : bool :=
+  (* written with [if] so that the comparisons stop early under vm_compute *)
+  if eqb_bytes (a_cd a) (a_cd b) then
+    if eqb_parsed (a_parsed a) (a_parsed b) then
+      if eqb_bytes (a_sig a) (a_sig b) then
+        if eqb_bytes (a_key a) (a_key b) then
+          if eqb_bytes (a_ad a) (a_ad b) then Bool.eqb (a_sigok a) (a_sigok b) else true
+        else true
+      else true
+    else false
+  else true.
+Definition compat (k1 k2 : call) : bool :=
+  match call_asn k1, call_asn k2 with
+  | Some a, Some b => asn_compat a b
+  | _, _ =>
+      match k1, k2 with
+      | (EdLib p1 k1' s1 o1 _ | EdEx p1 k1' s1 o1 _), (EdLib p2 k2' s2 o2 _ | EdEx p2 k2' s2 o2 _) =>
+          if eqb_bytes s1 s2 then if eqb_bytes k1' k2' then if eqb_bytes p1 p2 then Bool.eqb o1 o2 else true else true else true
+      | _, _ => true
+      end
+  end.
+Definition consistent (seen : list call) (k : call) : bool := forallb (fun k' => compat k' k) seen.
 
 (* ------------------------------------------------------------------ *)
 Definition step_ok (c : cfg) (x : obs) : bool := eqb_outcome (run_call c (fst x)) (snd x).
-Definition mon_ok (c : cfg) (x : obs) : bool := mon_call c (fst x) (snd x).
+Definition mon_ok (x : obs) : bool := mon_call (fst x) (snd x).
+
+(* first call (1-based) at which the monitor is false; [seen] = the calls before it *)
+Fixpoint mon_from (c : cfg) (seen : list call) (l : list obs) (i : N) : N :=
+  match l with
+  | [] => 0%N
+  | x :: r =>
+      if cfg_ok c && mon_ok x && consistent seen (fst x)
+      then mon_from c (fst x :: seen) r (N.succ i) else N.succ i
+  end.
 
 Definition check (t : trace) : verdict :=
   let '(c, l) := t in
-  (first_false (step_ok c) l 0%N, first_false (mon_ok c) l 0%N, 0%N).
+  (first_false (step_ok c) l 0%N, mon_from c [] l 0%N, 0%N).
 Definition check_all (ts : list trace) : list verdict := map check ts.
 
 (* ------------------------------------------------------------------ *)
-(* well-formedness of generated calls (a boolean the harness inputs satisfy): bytes are
-   bytes, sizes are sizes, the generator's expectation agrees with the oracles, and the
-   key the WebAuthn contract call is judged under is the 65-byte prefix of key_data *)
+(* well-formedness of a list of generated calls: exactly what the monitor checks of the
+   inputs (not of the outcomes) - the hypothesis of C18_monitor_accepts_model *)
 Definition expect_agrees (e : option bool) (b : bool) : bool :=
   match e with Some x => Bool.eqb x b | None => true end.
 
-Definition wf_call (c : cfg) (k : call) : bool :=
+(* the generator's tag agrees with the specification: for a 32-byte payload exactly; for
+   other lengths a tag "genuine" is not allowed (outside the domain), a tag "corrupted"
+   must be justified by the specification *)
+Definition wa_expect_wf (a : assertion) (pre : bool) : bool :=
+  if len (a_payload a) =? 32 then expect_agrees (a_expect a) (pre && spec_wa_accept a)
+  else match a_expect a with
+       | Some true => false
+       | Some false => negb (pre && spec_wa_accept_prefix a)
+       | None => true
+       end.
+
+Definition wf_call (k : call) : bool :=
   match k with
   | B64 dst_len src => (0 <=? dst_len) && bytes_ok src
-  | Extract n sb eb data => true
+  | Extract n sb eb data => bound_u32 sb && bound_u32 eb && (len data <=? MAXU32)
   | Flags f => is_byte f
+  | FlagOne _ f => is_byte f
   | TypeChk _ => true
   | Challenge ch payload => bytes_ok payload
   | WaLib a =>
-      bytes_ok (a_payload a) && bytes_ok (a_ad a)
-      && expect_agrees (a_expect a) (spec_wa_accept c a)
-  | WaEx kd decoded a =>
-      bytes_ok (a_payload a) && bytes_ok (a_ad a)
-      && (negb (decoded && (65 <=? len kd)) || eqb_bytes (a_key a) (firstn 65 kd))
-      && expect_agrees (a_expect a) (decoded && (65 <=? len kd) && spec_wa_accept c a)
-  | EdLib _ _ _ sigok e | EdEx _ _ _ sigok e => expect_agrees e sigok
+      bytes_ok (a_payload a) && parsed_agrees a && wa_sizes_ok a && tag_ok a && wa_expect_wf a true
+  | WaEx kd sd decoded a =>
+      bytes_ok (a_payload a) && parsed_agrees a && wa_sizes_ok a && xdr_agrees sd decoded a
+      && (negb (decoded && (65 <=? len kd)) || eqb_bytes (a_key a) (firstn 65 kd)) && tag_ok a
+      && wa_expect_wf a (decoded && (65 <=? len kd))
+  | EdLib _ key sig sigok e | EdEx _ key sig sigok e =>
+      ed_sizes_ok key sig sigok && expect_agrees e sigok
   end.
+
+Fixpoint wf_calls (seen : list call) (cs : list call) : bool :=
+  match cs with
+  | [] => true
+  | k :: r => wf_call k && consistent seen k && wf_calls (k :: seen) r
+  end.
+Definition wf_trace (c : cfg) (cs : list call) : bool := cfg_ok c && wf_calls [] cs.
